@@ -106,13 +106,16 @@ def _aligned_ref_error(ek, e_code, e_ref, w_err=None):
     return ev
 
 
-def _check_edge_model(ctx, ek, edge, S_, label=""):
-    """calc_error vs reference, calc_chi2 vs explicit sum.  Returns (failed, chi2_ref, tol)."""
+def _check_edge_model(ctx, ek, edge, S_, label="", operands=None):
+    """calc_error vs reference, calc_chi2 vs explicit sum.  Returns (failed, chi2_ref, tol).
+    `operands`: the two vertex objects the edge constrains (default: the ones the library linked)."""
     n = E.err_dim(ek)
     e_code = np.array(edge.calc_error(), dtype=float)
     if e_code.shape != (n,) or not np.all(np.isfinite(e_code)):
         return ctx.fail("error-shape", "calc_error returned %r" % (e_code.tolist(),)), None, None
     rp1, rp2, rz, roff = E.ref_operands(edge)
+    if operands is not None:
+        rp1, rp2 = gs.stored(operands[0].pose), gs.stored(operands[1].pose)
     e_ref = np.array([R.val(x) for x in E.ref_error(ek, rp1, rp2, rz, roff)], dtype=float)
     if ek == "odo:se2":
         # the reported angular error must itself be a wrapped angle
@@ -324,3 +327,19 @@ def _check_graph(case, ctx):
         chi_g = float(g.calc_chi2())
         if not (abs(chi_g - total) <= tol_total + 1e-300):
             return ctx.fail("graph-chi2-vs-reference-sum", "after moving the vertices: Graph.calc_chi2=%r, sum of reference edge chi2=%r (tol %.3e)" % (chi_g, total, tol_total))
+        # history: the same edge objects in a second Graph over NEW Vertex objects (same ids, the first state's poses): errors
+        # and chi2 are those of the graph they are evaluated in, i.e. of the vertices with the ids the edge names in that graph
+        verts2 = [gs.Vertex(ids[i], gs.mk_pose(p)) for i, p in enumerate(case["poses"] + case["lms"])]
+        g2 = gs.Graph(list(g._edges), verts2)
+        by_id = {v.id: v for v in verts2}
+        total = 0.0
+        tol_total = 0.0
+        for ek, edge in zip(eks, g2._edges):
+            failed, chi_ref, tol = _check_edge_model(ctx, ek, edge, Sb, " (same edge objects in a second graph with new vertex objects)", operands=[by_id[i] for i in edge.vertex_ids])
+            if failed:
+                return
+            total += chi_ref
+            tol_total += tol + 1e-12 * abs(chi_ref)
+        chi_g = float(g2.calc_chi2())
+        if not (abs(chi_g - total) <= tol_total + 1e-300):
+            return ctx.fail("graph-chi2-vs-reference-sum", "second graph over the same edge objects: Graph.calc_chi2=%r, sum of reference edge chi2=%r (tol %.3e)" % (chi_g, total, tol_total))
